@@ -97,6 +97,22 @@ def WriteInteger(output: BinaryIO, i: int):
     output.write(PackInteger(i))
 
 
+def PackSignedInteger(v):
+    # Signed LEB128: stop once the remaining bits are pure sign extension
+    output = []
+    while True:
+        b = v & 0x7F
+        v >>= 7
+        if (v == 0 and not (b & 0x40)) or (v == -1 and (b & 0x40)):
+            output.append(b)
+            return bytes(output)
+        output.append(b | 0b1000_0000)
+
+
+def WriteSignedInteger(output: BinaryIO, i: int):
+    output.write(PackSignedInteger(i))
+
+
 def PackFloat(v):
     return struct.pack("<f", v)
 
@@ -370,7 +386,11 @@ class Instruction:
         # TODO Handle non-integer arguments
         if self.__args:
             for arg in self.__args:
-                WriteInteger(output, arg)
+                # Constant immediates are signed LEB128, indices unsigned
+                if self.__opcode == opcodes["i32.const"]:
+                    WriteSignedInteger(output, arg)
+                else:
+                    WriteInteger(output, arg)
 
 
 class Code:
